@@ -428,7 +428,7 @@ def _run_lists(res):
               "1::8", "1::2::3", ":::", ":", "1:", ":1", "12345::", "::12345", "::ffff:1.2.3.4",
               "::1.2.3.4", "1.2.3.4::", "::1.2.3", "::1.2.3.256", "::01.2.3.4", "1:2:3:4:5:6:1.2.3.4",
               "1:2:3:4:5:6:7:1.2.3.4", "::g", "g::", "a:b", "A:B:C:D:E:F:0:1", "a.b:c", "::.",
-              "fe80::1%eth0", "[::1]", "::1 ", " ::1", "::1\n", "dead:beef::", "0:0:0:0:0:0:0:0",
+              "fe80::1%eth0", "::1%0", "::%-", "::ffff:1.2.3.4%x_y", "1:2:3:4:5:6:7:8%1", "fe80::1%", "%eth0", "[::1]", "::1 ", " ::1", "::1\n", "dead:beef::", "0:0:0:0:0:0:0:0",
               "localhost", "LocalHost", "a", "_", "ab", "a.", "a-", "-a", "_a", "1a", "a1",
               "a..b", "a_b.c-d", "www.Example.COM", "1.2.3.4", "1.2.3", "1.2.3.4.5", "255.255.255.255",
               "256.1.1.1", "01.1.1.1", "001.1.1.1", "1.2.3.4\n", "ab\n", "a b", "", " ", "host:80",
@@ -653,7 +653,9 @@ def _grammar_strategies():
             left, right = groups[:k], groups[k:]
             return ":".join(left) + "::" + ":".join(right)
         return ":".join(groups)
-    host = st.one_of(hostname, quad, ipv6(), ipv6().map(lambda s: "[" + s + "]"), st.just(""),
+    zone = st.text(alphabet="eth01-_.%", max_size=4).map(lambda z: "%" + z)
+    scoped = st.builds(lambda a, z: a + z, ipv6(), zone)
+    host = st.one_of(hostname, quad, ipv6(), ipv6().map(lambda s: "[" + s + "]"), st.just(""), scoped,
                      st.just("[]"), hostname.map(lambda s: "[" + s + "]"))
     hostport = st.one_of(st.builds(lambda h, p: h + ":" + p, host, port), host, port,
                          st.builds(lambda h: h + ":", host))
@@ -684,7 +686,7 @@ def _grammar_strategies():
         "inet-address": hostport, "inet-binding-address": hostport,
         "inet-connection-address": hostport, "socket-address": sockaddr,
         "socket-binding-address": sockaddr, "socket-connection-address": sockaddr,
-        "ipaddr-or-hostname": st.one_of(hostname, quad, ipv6()),
+        "ipaddr-or-hostname": st.one_of(hostname, quad, ipv6(), scoped),
         "string": st.text(max_size=20), "null": st.text(max_size=20),
     }
 
